@@ -282,3 +282,43 @@ Print Assumptions C04_args_wired.
 Print Assumptions C04_run_confidence.
 Print Assumptions C04_scored_run_row_unfold.
 Print Assumptions C04_run_confidence_joined.
+
+(* ==================================================================================================================================
+   APPENDED: THE WHOLE PROGRAM (model/Program.v: program_files cl ref_rows qry_rows = the data lines of every XMAP file from the rows of the two
+   CMAP files and the command line; proofs/ProgramProofs3.v).  Hypotheses on the input files only (cmap_ok: see props/C07.v; none on the command line).
+   The Confidence column (9th tab-separated field) of the k-th data line of every file is "{:.2f}" of conf w / 20 for the k-th row w of that file, and
+   w is a scored_run_row of the run with the parameters wired from the command line (make_params: C04_args_wired) and the executable seeding stage —
+   its confidence is the recomputed configured score of exactly the positions it reports, for ONE candidate (C04_scored_run_row_unfold) — or
+   (main file, modes best / joined / all) a joined row of two such rows, whose confidence is the recomputed score of its two segments. *)
+From Coq Require Import String.
+Require Import Cmap Xmap Record Seeding Program CmapProofs ProgramProofs1 ProgramProofs2 ProgramProofs3.
+Require ProgramExamples.
+
+Theorem C04_program_confidence cl rr qr files : cmap_ok (cl_rids cl) rr -> cmap_ok (cl_qids cl) qr ->
+  program_files cl rr qr = Ok files ->
+  let P := make_params (cl_args cl) in let seeds : seeding := seeds_model (cl_seed cl) in
+  exists refs q0s o,
+    cmap_read rr (cl_rids cl) = Ok refs /\ cmap_read qr (cl_qids cl) = Ok q0s /\ program_outputs cl rr qr = Ok o /\
+    forall sfx lines k line, In (sfx, lines) files -> nth_error lines k = Some line ->
+      exists rows w, rows_of_file o sfx = Some rows /\ nth_error rows k = Some w /\
+        nth_error (split_on TAB line) 8 = Some (print_hundredths (5 * conf w)) /\
+        (scored_run_row P seeds refs (map trim q0s) w \/
+         (sfx = ""%string /\ cl_mode cl <> Separate /\
+          exists a b, scored_run_row P seeds refs (map trim q0s) a /\ scored_run_row P seeds refs (map trim q0s) b /\ join_rows a b = Ok w /\
+                      conf w = recomputed P (rsegs w))).
+Proof. exact (fun H2 H3 => program_confidence cl rr qr H2 H3 files). Qed.
+
+(* non-vacuity: the run of proofs/ProgramExamples.v, mode `all`: the Confidence fields of the three files and the recomputed scores (in 1/20)
+   of the rows behind them: the joined record 14732.00 = 294640 / 20 *)
+Example C04_program_nonvacuous :
+  cmdline_ok (ProgramExamples.px_cl All_) /\ cmap_ok [] ProgramExamples.px_rr /\ cmap_ok [] ProgramExamples.px_qr /\
+  match program_files (ProgramExamples.px_cl All_) ProgramExamples.px_rr ProgramExamples.px_qr, program_outputs (ProgramExamples.px_cl All_) ProgramExamples.px_rr ProgramExamples.px_qr return Prop with
+  | Ok files, Ok o =>
+      map (fun f => map (fun line => nth 8 (split_on TAB line) ""%string) (snd f)) files = [["14732.00"]; ["8568.00"; "9020.00"]; ["6414.00"]]%string /\
+      map (fun w => (conf w, recomputed (make_params (cl_args (ProgramExamples.px_cl All_))) (rsegs w))) (o_main o ++ opt_rows (o_1 o) ++ opt_rows (o_2 o))
+      = [(294640, 294640); (171360, 171360); (180400, 180400); (128280, 128280)]
+  | _, _ => False
+  end.
+Proof. split; [apply ProgramExamples.px_cl_ok|]. split; [exact (proj1 ProgramExamples.px_files_ok)|]. split; [exact (proj2 ProgramExamples.px_files_ok)|].
+  vm_compute. split; reflexivity. Qed.
+Print Assumptions C04_program_confidence.
